@@ -20,7 +20,7 @@ func init() {
 		ID:    "C01",
 		Level: "exploration",
 		Rule: "base messages = {Response signed, Assertion signed, both, neither} x {plaintext, encrypted to the SP key} x {1,2 assertions} x signer {two IdP signing keys, the IdP's encryption-use key, attacker key, attacker key with look-alike certificate, EC key} under 7 trust configurations (metadata with one/two signing certs, signing+encryption descriptors, use omitted, pinned certificate, fingerprint sha256/sha512); " +
-			"each base is delivered unchanged and after 1..3 operations of the attack grammar (XSW shapes, evil twins as sibling/parent/child incl. inside ds:Object/Extensions/Advice, moved/copied/emptied signatures, ID and Reference edits, KeyInfo substitution, attacker re-signing, comment/CDATA/PI injection, namespace re-binding, re-encryption to the SP certificate, partial removal, transform edits, byte-level round-trip-unstable splices) through the XML, POST and artifact entry points. " +
+			"each base is delivered unchanged and after 1..3 operations of the attack grammar (XSW shapes, evil twins as sibling/parent/child incl. inside ds:Object/Extensions/Advice, moved/copied/emptied signatures, ID and Reference edits, KeyInfo substitution, attacker re-signing, comment/CDATA/PI injection, namespace re-binding, re-encryption to the SP certificate, partial removal, transform edits, byte-level round-trip-unstable splices) through the XML, POST and artifact entry points; plus trust-reconfiguration sequences on one long-lived SP (keys added, retired and replaced between deliveries by in-place metadata edits, descriptor-slice swaps, a new metadata object, certificate pin, fingerprint), each delivery judged against the roots configured at that moment. " +
 			"Oracle: error, or the projection (issuer, subject, conditions, statements) of the returned assertion is one the signing oracle signed with a key trusted in that configuration. Non-trivial = well-formed document that reached signature/assertion processing or was accepted; distinct by (base, trust, operation sequence, entry).",
 		Assumptions: []string{"the attacker cannot forge signatures or find hash collisions", "SignatureVerifier overrides are application code and not exercised", "all non-signature fields of hostile documents are kept valid so that only the signature can save the SP"},
 		FloorQuick:  2000,
